@@ -43,7 +43,9 @@ impl AHist {
         d.confirmed = confirmed;
         d.fopts = fopts.to_vec();
         d.fport = fport;
-        d.payload = payload.to_vec();
+        // a LoRa PHY payload has at most 255 bytes: MHDR + FHDR(7 + FOpts) + FPort + FRMPayload + MIC
+        let room = 255usize.saturating_sub(1 + 7 + fopts.len() + 1 + 4);
+        d.payload = payload[..payload.len().min(room)].to_vec();
         let bytes = d.build().expect("downlink build");
         self.last_down = Some(fcnt);
         self.frame_item(snr, &bytes, Some(fcnt))
@@ -281,7 +283,15 @@ pub fn gen_random_dev_history(suite: &str, region: &str, rng: &mut Rng) -> Strin
     let mut h = AHist::new(suite, region, rng.next() & 0xffffff, lead, *rng.pick(&[0u32, 40, 300]), class_c, *rng.pick(&[57u32, 1200, 0]));
     h.abp();
     let steps = 2 + rng.below(6);
+    let drs = uplink_drs(region);
+    // frame sizes around the per-data-rate MACPayload limits (19/59/61/123/133/137/250): which
+    // window a frame arrives in decides whether it fits
+    let sizes: [usize; 9] = [2, 2, 2, 9, 45, 52, 108, 125, 230];
     for _ in 0..steps {
+        if rng.chance(1, 3) {
+            let e = format!("dr {}", rng.pick(&drs));
+            h.ev(&e);
+        }
         let n = rng.below(12) as usize;
         let mut script = vec![];
         for _ in 0..n {
@@ -289,7 +299,9 @@ pub fn gen_random_dev_history(suite: &str, region: &str, rng: &mut Rng) -> Strin
                 0 => script.push("E".to_string()),
                 1 | 2 => {
                     let cmds = if rng.chance(1, 2) { some_cmds(rng, region, 15) } else { vec![] };
-                    script.push(h.auth_item(rng.range(-20, 20) as i8, 1 + rng.below(2) as u32, rng.chance(1, 3), &cmds, Some(1 + rng.below(100) as u8), &[7, 7]));
+                    let len = *rng.pick(&sizes);
+                    let payload = rng.bytes(len);
+                    script.push(h.auth_item(rng.range(-20, 20) as i8, 1 + rng.below(2) as u32, rng.chance(1, 3), &cmds, Some(1 + rng.below(100) as u8), &payload));
                 }
                 3 => {
                     let nb = rng.below(30) as usize;
@@ -480,7 +492,10 @@ pub fn gen_nb_random_history(suite: &str, region: &str, rng: &mut Rng) -> String
             }
             4 => {
                 let cmds = if rng.chance(1, 2) { some_cmds(rng, region, 15) } else { vec![] };
-                h.rx_auth(rng.range(-20, 20) as i8, rng.chance(1, 3), &cmds, Some(1 + rng.below(100) as u8), &[5]);
+                // sizes around the per-data-rate MACPayload limits: the window decides whether it fits
+                let len = *rng.pick(&[1usize, 1, 1, 9, 45, 52, 108, 125, 230]);
+                let payload = rng.bytes(len);
+                h.rx_auth(rng.range(-20, 20) as i8, rng.chance(1, 3), &cmds, Some(1 + rng.below(100) as u8), &payload);
             }
             5 => {
                 let nb = rng.below(30) as usize;
@@ -488,7 +503,12 @@ pub fn gen_nb_random_history(suite: &str, region: &str, rng: &mut Rng) -> String
                 h.rx_bytes(0, &b);
             }
             6 => {
-                h.ev("njoin");
+                if rng.chance(1, 2) {
+                    h.ev("njoin");
+                } else {
+                    let e = format!("dr {}", rng.pick(&uplink_drs(region)));
+                    h.ev(&e);
+                }
             }
             _ => {
                 h.ev(&format!("ntimeout{}", script));
